@@ -30,6 +30,8 @@ def constructs(tag):
         [f"term {tag}", "   definition body"],
         [f"Ends with blank {tag}.", ""],
         [],
+        [".. admonition:: Tip", "   :class: hint", "", f"   body of the tip {tag}"],      # nested directives with options
+        [".. figure:: logo.png", "   :alt: a logo", "   :width: 10", "", f"   caption {tag}"],
     ]
 
 
@@ -207,6 +209,9 @@ def judge(page_text, events, marks):
             msgs.append(f"structure: {what} rendered as directive {s['stub']}")
             continue
         check_marks(s, e["src"], what)
+        if own_nodes(s, nodes.block_quote):
+            # none of the planted constructs is a block quote: text was pushed out of the entry's content column
+            msgs.append(f"nesting: {what}: part of its content is parsed as a block quote (inconsistent indentation)")
         adm_note = own_nodes(s, nodes.note)
         adm_warn = own_nodes(s, nodes.warning)
         fields = [f.children[0].astext() for f in own_nodes(s, nodes.field)]
@@ -219,6 +224,11 @@ def judge(page_text, events, marks):
             if f not in fields:
                 msgs.append(f"nesting: {what}: field {f!r} is not inside its directive (fields there: {fields})")
         if e["kind"] == "class":
+            # the inner-class list inside the entry names exactly the classes defined directly inside it
+            listed = [re.sub(r"[`:]|class", "", it.astext()).strip() for bl in own_nodes(s, nodes.bullet_list) for it in bl.children
+                      if "class" in it.rawsource or it.astext().strip() in e.get("inner", [])]
+            if e.get("inner") is not None and sorted(x for x in listed if x in e["inner"]) != sorted(e["inner"]):
+                msgs.append(f"nesting: {what}: inner classes {e['inner']} are not all listed inside its directive (listed: {listed})")
             kids_ = nested_stubs(s)
             members = e["ctors"] + e["methods"] + e["attrs"]
             if len(kids_) != len(members):
@@ -294,13 +304,15 @@ def check_cli(job):
 def check(spec):
     if spec and spec[0] == "<cli>":
         return check_cli(spec)
-    leader, case = True, "lower"
+    leader, case, inline = True, "lower", False
     if spec and spec[0][0] == "<leaderless>":
         leader, spec = False, spec[1:]
+    if spec and spec[0][0] == "<inline-closer>":
+        inline, spec = True, spec[1:]
     if spec and spec[0][0] in ("<upper>", "<mixed>"):
         case, spec = spec[0][0][1:-1], spec[1:]
     events, marks = build(spec)
-    text = cmakegen.text_of(events, layout={"leader": leader}, case=case)
+    text = cmakegen.text_of(events, layout={"leader": leader, "inline_closer": inline}, case=case)
     r = pipeline.document_text(text)
     if r["page"] is None:
         msgs = [f"error: pipeline failed: {r['error']}"]
@@ -339,6 +351,12 @@ def run(ctx):
         for s in range(min(ns, 2)):
             for seq in [q for q in seqs if len(q) <= (1 if quick else 2)]:
                 jobs.append([("<leaderless>", {}), (c, {str(s): seq})])
+    # the terminator on the line of the last sentence
+    for c in CARRIERS:
+        ns = len(slots(cmakegen.close(CARRIERS[c]())))
+        for s_ in range(ns):
+            for seq in ([0], [2], [6], [0, 5], [5, 2]):
+                jobs.append([("<inline-closer>", {}), (c, {str(s_): seq})])
     # command names in UPPER and MiXed case (CMake command names are case-insensitive)
     for cs in ("<upper>", "<mixed>"):
         for c in CARRIERS:
